@@ -26,7 +26,7 @@ CLAIMED = {
  'C11': dict(
    technique='runtime monitoring over an exhaustively enumerated finite matrix: reference gating table + twin for the as-if-not-made clause + autoref-specialisation probe for the compile-time table',
    level='exploration',
-   text='All ~20 k cells {Client, Server, Any-as-client, Any-as-server} x {v3.1.1, v5.0, undetermined} x {disconnected, connecting, connected} x 31 send cells x persistent x offline x id width, each through send(), checked_send(concrete type) and checked_send(GenericPacket): outcome must equal the gating table of DESIGN Appendix A; a refused call may only return errors plus the release of its own id and must leave the object indistinguishable (digest and a fixed continuation trace) from a twin that never made the call; `T: Sendable<Role, Id>` observed for all 29 types x 3 roles x 2 id types must equal the role table. Exhaustive.',
+   text='All ~27 k cells {Client, Server, Any-as-client, Any-as-server} x {v3.1.1, v5.0, undetermined} x {disconnected, connecting, connected} x 31 send cells x persistent x offline x id width, each through send(), checked_send(concrete type) and checked_send(GenericPacket), and again on a primed session (handled inbound QoS 2 id, unacknowledged inbound QoS 1, stored PUBLISH and PUBREL, QoS 2 exchange awaiting its PUBREL) with acks that answer those exchanges, with v5 acks carrying a failure reason code, and with a second PUBLISH/PUBREL on an id that already carries a stored exchange: outcome must equal the gating table of DESIGN Appendix A; a refused call may only return errors plus the release of its own id and must leave the object indistinguishable (digest and a fixed continuation trace) from a twin that never made the call; `T: Sendable<Role, Id>` observed for all 29 types x 3 roles x 2 id types must equal the role table. Exhaustive.',
    note='Trusted: DESIGN Appendix A as the reading of "who may send what when"; queue-able cells may be queued or refused.',
    design='DESIGN.md §4 C11, Appendix A'),
  'C16': dict(
@@ -38,7 +38,7 @@ CLAIMED = {
  'C17': dict(
    technique='runtime monitoring over an exhaustively enumerated finite matrix (receive gating) + differential twins (Undetermined vs fixed-version server)',
    level='exploration',
-   text='All 1536 cells role path x version x status x 16 type nibbles x {minimal valid body, empty body} x id width on a primed persistent session: kinds the remote side may never send must yield an error, no delivery, no response and an unchanged session (public view and digest); CONNECT/CONNACK on an established connection likewise. Undetermined server: CONNECT levels 3/4/5/6 and eight other first packets. 300 k (quick) / 10 M (thorough) seeded driver histories run against an Undetermined server and a fixed-version server must give identical call-by-call traces.',
+   text='All 1536 cells role path x version x status x 16 type nibbles x {minimal valid body, empty body} x id width on a primed persistent session: kinds the remote side may never send must yield an error, no delivery, no response and an unchanged session (public view and digest); CONNECT/CONNACK on an established connection likewise, swept over the contents of the second handshake packet (every CONNACK reason/return code x session present x limit-renegotiating properties; CONNECT clean start x keep alive x client id x properties; ~900 cells). Undetermined server: CONNECT levels 3/4/5/6 and eight other first packets. 300 k (quick) / 10 M (thorough) seeded driver histories run against an Undetermined server and a fixed-version server must give identical call-by-call traces.',
    note='Trusted: DESIGN Appendix B.',
    design='DESIGN.md §4 C17, Appendix B'),
  'C05': dict(
@@ -68,7 +68,7 @@ CLAIMED = {
  'C12': dict(
    technique='runtime monitoring: online reference-model monitor over call records of seeded random histories (generic driver, hostile peer, small alphabets), every call under catch_unwind in the overflow-checks build (+ second build with overflow checks off)',
    level='exploration',
-   text='Outstanding-set model keyed by id: vacancy == max(0, M - |outstanding|) after every call on an established v5 connection (F1), a QoS>0 PUBLISH is accepted iff below the limit (F2), inbound excess is not delivered (F3); M in {1,2,3,65535}, resumes with stored packets, erasures, refusals, error acks.',
+   text='Outstanding-set model keyed by id: vacancy == max(0, M - |outstanding|) after every call on an established v5 connection and on a server between CONNECT and CONNACK, where publishes queued for the flush already count (F1), a QoS>0 PUBLISH is accepted iff below the limit (F2), inbound excess is not delivered (F3); M in {1,2,3,65535}, resumes with stored packets, erasures, refusals, error acks.',
    note='Trusted: the reference model of DESIGN Appendix F (written from the property statements, updated only from calls, returned events and public probes) and the application contract of DESIGN §3.3. The hook digest is only used to read the in-use id set faster; the same clause is re-checked black-box by register()/release() probing on a sample of calls.',
    design='DESIGN.md §4 + Appendix F'),
  'C13': dict(
@@ -116,7 +116,7 @@ CLAIMED = {
  'C18': dict(
    technique='runtime monitoring over an exhaustively enumerated finite table: reference acceptance table (MQTT 5.0 Table 2-4) vs builder path and parser path',
    level='exploration',
-   text='All 1484 cells (27 property ids x 14 locations incl. will x count {1,2} x value classes incl. every forbidden value) are placed into a minimal valid carrier packet and run through the public builders and, reference-encoded, through the parsers; acceptance must equal the specification table on both paths. Exhaustive over the table.',
+   text='All 1484 cells (27 property ids x 14 locations incl. will x count {1,2} x value classes incl. every forbidden value) are placed into a minimal valid carrier packet and run through the public builders and, reference-encoded, through the parsers; acceptance must equal the specification table on both paths. Exhaustive over the table. In addition every ordered pair of distinct property ids x 14 locations in the list shapes [A,B] [B,A] [A,B,B] [B,A,B] [B,B,A] (~5.8 k cells: the verdict on a property must not depend on its neighbour) and 20 k (quick) / 2 M (thorough) seeded random property lists of up to 6 entries.',
    note='Trusted: my transcription of Table 2-4 (DESIGN Appendix C). Builder cells whose value no public constructor can express are counted as inexpressible.',
    design='DESIGN.md §4 C18'),
  'C20': dict(
